@@ -34,6 +34,9 @@ pub(crate) mod storage;
 pub(crate) mod test_utils;
 pub(crate) mod upgrades;
 mod utils;
+#[cfg(all(test, feature = "verif"))]
+#[path = "/verif/harness/sequencer/mod.rs"]
+mod verif;
 
 pub use build_info::BUILD_INFO;
 pub use config::Config;
